@@ -31,11 +31,25 @@ Print Assumptions onentries_faithful.
    concatenated rows are one row per submitted entry (entries_<proto> body), in submission order, with the entry's
    exact timestamp / line / value bits / type and the fingerprint (and TTL) of the entry's own stream *)
 Theorem decode_faithful_loki_json :
-  forall fp enc_len CS cache_add cache0 threshold flush_limit ctx_ttl (body : list lstream),
+  forall fp enc_len CS cache_add cache0 threshold flush_limit ctx_ttl (body : list (list lmember)),
   exists cs, decode fp enc_len CS cache_add cache0 threshold flush_limit ctx_ttl (BLoki body) = Done cs /\
              Forall chunk_rect cs /\ rows_of cs = rows_spec fp ctx_ttl (entries_loki_json body).
 Proof. intros. exact (decode_faithful_all fp enc_len CS cache_add cache0 threshold flush_limit ctx_ttl (BLoki body)). Qed.
 Print Assumptions decode_faithful_loki_json.
+
+(* ... and when every stream object has exactly one label member ("stream" or "labels") and one entry member
+   ("values" or "entries"), in ANY key order and with any unknown keys in between, the rows are those of the
+   streams themselves: labels sanitised once, entries in order *)
+Theorem decode_faithful_loki_json_any_key_order :
+  forall fp enc_len CS cache_add cache0 threshold flush_limit ctx_ttl (body : list (list lmember)) (streams : list lstream),
+  Forall2 wf_members body streams ->
+  exists cs, decode fp enc_len CS cache_add cache0 threshold flush_limit ctx_ttl (BLoki body) = Done cs /\
+             Forall chunk_rect cs /\ rows_of cs = rows_spec fp ctx_ttl (entries_loki_streams streams).
+Proof.
+  intros until streams. intros H. rewrite <- (entries_loki_json_wf body streams H).
+  exact (decode_faithful_all fp enc_len CS cache_add cache0 threshold flush_limit ctx_ttl (BLoki body)).
+Qed.
+Print Assumptions decode_faithful_loki_json_any_key_order.
 
 Theorem decode_faithful_loki_protobuf :
   forall fp enc_len CS cache_add cache0 threshold flush_limit ctx_ttl (body : list lstream),
@@ -122,6 +136,10 @@ Print Assumptions timestamp_scaling_exact.
 Example onentries_hypothesis_met :
   Forall call_wf [K [("app", "a")]%string [1; 2] [""; "x"]%string [0; 0]%N [1; 1]%N; K [] [] [] [] []].
 Proof. constructor; [|constructor; [|constructor]]; unfold call_wf; cbn; repeat split; repeat constructor; lia. Qed.
+Example key_order_hypothesis_met :
+  wf_members [MOther; MEnt [LE 1 (Some "x"%string) None; LE 2 None (Some 3%N)]; MOther; MLbl [("app", "a")]%string]
+             (LS [("app", "a")]%string [LE 1 (Some "x"%string) None; LE 2 None (Some 3%N)]).
+Proof. split; reflexivity. Qed.
 Example scaling_hypothesis_met : -9223372036854775808 <= 1700000000000 * 1000000 < 9223372036854775808.
 Proof. lia. Qed.
 Example influx_perm_hypothesis_met :
@@ -131,8 +149,8 @@ Proof. split; [apply Permutation.perm_swap|reflexivity]. Qed.
 (* two thresholds, two different chunkings, same rows: 3 entries of 2 streams, flushed after every call (threshold 0)
    or never (threshold 10^9) *)
 Example chunkings_differ_rows_agree :
-  let b := BLoki [LS [("app", "a")]%string [LE 1 (Some "x"%string) None; LE 2 (Some "y"%string) None];
-                  LS [("app", "b")]%string [LE 3 None (Some 7%N)]] in
+  let b := BLoki [members_of (LS [("app", "a")]%string [LE 1 (Some "x"%string) None; LE 2 (Some "y"%string) None]);
+                  members_of (LS [("app", "b")]%string [LE 3 None (Some 7%N)])] in
   let fp := fun l : labels => N.of_nat (List.length l) in
   let d := fun th => decode fp (fun _ => 0) unit miss_cache tt th 1000%N 0%N b in
   (match d 0, d 1000000000 with Done c1, Done c2 => (List.length c1, List.length c2) | _, _ => (0, 0)%nat end) = (3, 1)%nat /\
